@@ -168,7 +168,24 @@ func c18ForeignPeerScenario() schedScenario {
 	}
 }
 
+// c18DupScenario: a peer's answer reaches the CHF more than once (a retransmission): the copies arrive while the
+// exchange is still being served or after it has ended. Nothing may be left behind by the surplus answers.
+func c18DupScenario() schedScenario {
+	s := c18SlowScenario(6000)()
+	s.Elig = func(def, alt string) bool { return alt == "DUP" || (alt == "DELAY" && kindOf(def) == "net.Read") }
+	obs := s.Observe
+	s.Observe = func(w *World, sc *schedCtx) (string, []Finding) {
+		o, fs := obs(w, sc)
+		for i := range fs {
+			fs[i].Rule = strings.Replace(fs[i].Rule, "/slow-peer", "/repeated-answer", 1)
+		}
+		return o, fs
+	}
+	return s
+}
+
 func init() {
+	schedScenarios["c18-repeated-answer"] = c18DupScenario
 	schedScenarios["c18-foreign-peer"] = c18ForeignPeerScenario
 	schedScenarios["c18-slow-3s"] = c18SlowScenario(3000)
 	schedScenarios["c18-slow-6s"] = c18SlowScenario(6000)
@@ -177,8 +194,11 @@ func init() {
 
 func c18SlowPeers(rep *Report, pool *Pool) (per []map[string]any, execs int, exhaustive bool) {
 	exhaustive = true
-	for _, name := range []string{"c18-slow-3s", "c18-slow-6s", "c18-silent-peer", "c18-foreign-peer"} {
+	for _, name := range []string{"c18-slow-3s", "c18-slow-6s", "c18-silent-peer", "c18-foreign-peer", "c18-repeated-answer"} {
 		bound, capExecs := 1, 3000
+		if name == "c18-repeated-answer" {
+			bound = 2 // a repeated answer that is also late needs two deviations
+		}
 		if rep.Tier == "thorough" {
 			bound, capExecs = 2, 40000
 		}
